@@ -413,7 +413,7 @@ package mqtt
 //@ func (*RetryClient).SetClient$1
 //@   role task
 //@   mode int
-//@   props C01 C02 C03 C18
+//@   props C01 C02 C03 C10 C18
 //@   requires c != nil
 //@   relies c.chConnectErr != nil && c.chConnSwitch != nil && forall(0, len(c.taskQueue), func(i int) bool { return c.taskQueue[i] != nil })
 //@   relies c.cli != nil && c.cli.Transport != nil
@@ -435,6 +435,7 @@ package mqtt
 //@   loop 1 iter[C01,C02] switch_noticed: connected && evCount("select") >= 1 && evRet[int]("select", 0, 0) == 0 ==> !connected_next && evCount("fntype:func(ctx context.Context, cli *BaseClient)") == 0
 //@   loop 1 iter[C01,C02] switch_noticed_idle: connected && evCount("select") == 2 && evRet[int]("select", 1, 0) == 1 ==> !connected_next &&
 //@        evArg[chan struct{}]("select", 1, 1) == evArg[chan struct{}]("select", 0, 0)
+//@   loop 1 iter[C10] stats_published: evCount("fntype:func(ctx context.Context, cli *BaseClient)") == 1 ==> c.stats.QueuedRetries == len(c.retryQueue)
 //@   loop 1 let connected0 bool = connected
 //@   loop 1 iter[C01,C02] starts_disconnected: !connected0
 //@   loop 1 iter[C01,C02] reconnects: !connected ==> connected_next && evCount("fntype:func(ctx context.Context, cli *BaseClient)") == 0
